@@ -10,6 +10,7 @@ import math
 import types
 
 LEVEL = "proof"
+EXTRA_PROPS = ["QuantemModel.Props.C12Ext"]   # growth 6: the conversions for every max_order (loop model = translated text at 5)
 MANIFEST_ENTRY = {
     "category": "proof",
     "text": "Lean 4 theorems at ℝ about the *translated* source (Python ast → Lean partial evaluator, regenerated from the repo on every run): the polar series equals the spec χ=(2π/λ)Σ α^{n+1}/(n+1)·C_nm cos(m(φ−φ_nm)) over the 14-entry (n,m) table = all 25 symbols; each symbol individually (single_symbol, every_symbol_contributes) in surface AND gradients; the `if any(k in coefs…)` guards, translated faithfully with a presence predicate, are transparent for every set of present keys (guards_transparent) and list every symbol (guard_complete); Σ cart_l·basis_l = χ with cart = polar_to_cartesian(polar); the basis loop translated over a DYNAMIC label list returns column i = basis function of labels[i] for every list (basis_column_order); Cartesian→polar→Cartesian is the identity on all 25 labels, polar→Cartesian→polar returns the coefficients for C>0, mφ∈(−π,π] and otherwise still the identical surface; merge adds the deltas' basis expansion; dchi_dk = λ·∂χ/∂α, α·dchi_dphi = λ·∂χ/∂φ and (dchi_dx, dchi_dy) = λ·∇_{x,y}χ through the source's own sqrt/atan2 polar coordinates at every point but the origin (generated aberration_surface_cartesian_gradients, branch cut via 2π-periodicity); the key/value loop bodies of the three alias implementations, translated, equal the hand model's steps for every key/value (alias_steps_are_translated, defocus_sign_in_source) and 'defocus' ↦ C10 = −defocus for every input dict by induction; the fit END TO END: _passively_rotate_grid, polar_coordinates, _torch_polar (on an abstract svd meeting its spec) and the whole extraction part of fit_aberrations_from_shifts are translated; lateral shifts of a quadratic set are basis@(R_{−θ}·A) at every pixel; a full-column-rank basis has non-zero Gram determinant and the normal equations return the matrix; the translated _torch_polar returns the RIGHT polar factor = the unique polar decomposition (torch_polar_is_polar, polar_decomposition_unique); the translated extraction returns (C10,C12,φ12,θ) for every |θ|<π/2 together with every C12>0, |C10|>C12, φ12∈(−π/2,π/2] (fit_roundtrip_translated_polar). THE ALIAS CODE AS STATE (round 5): the probe_params setter as a state machine on _probe_params with values float() rejects — an assignment is rejected iff a predicate of the dict alone fails, a rejected assignment (key check OR part-way through the conversions) leaves the whole state unchanged, rejected assignments can be deleted from EVERY history (probe_params_rejected_calls_are_noops), what an accepted one stores is the hand model of the defocus theorems (probe_params_setter_is_hand_model), and the last accepted defocus = x gives C10 = −x after any history (probe_params_history_defocus); HyperparameterState with the write-backs of optimize_/grid_search_hyperparameters and the cross-correlation / least-squares fits: for every initial dict, every history of operations and every override only the 25 polar symbols are ever handed to the surface code (hstate_only_symbols_reach_surface), and searching over `defocus` is searching over C10 = −defocus (entry_points_alias_eq_canonical). Float correspondence of every generated definition (guards and dynamic label lists included), the alias models, the two state machines (whole state after every step of generated histories, rejected steps included) and the fit against the real torch code; autograd/consistency predicates, alias-form-vs-canonical-form runs of every DirectPtychography entry point on a real tiny instance, and same-prior-twice merges on the real code as failing-input search.",
@@ -321,11 +322,15 @@ def predicates_formula(ctx, case, coefs, lam):
     cart_in = {k: T(v) for k, v in case["cart"].items()}
     if cart_in:
         c2 = cp.polar_to_cartesian_aberrations(cp.cartesian_to_polar_aberrations(cart_in), dtype=dt)
-        a = torch.stack([c2[k] for k in LABELS])
+        # a label the real result does not carry reads 0 (what every consumer of these dicts does): a dropped label is
+        # a failed round trip with this coefficient dict as the failing input, never an indexing error of the harness
+        a = torch.stack([torch.as_tensor(c2.get(k, 0.0), dtype=dt).reshape(()) for k in LABELS])
         b = torch.stack([cart_in.get(k, T(0.0)) for k in LABELS])
         f, d, s = bad(a, b)
         if f:
-            ctx.pred_fail("conv-cart-roundtrip", "polar_to_cartesian(cartesian_to_polar(c)) differs from c", small,
+            missing = [k for k in LABELS if k not in c2]
+            ctx.pred_fail("conv-cart-roundtrip", "polar_to_cartesian(cartesian_to_polar(c)) differs from c"
+                          + (f" (labels absent from the result: {missing})" if missing else ""), small,
                           observed=dict(zip(LABELS, a.tolist())), required=dict(zip(LABELS, b.tolist())))
     # (3) merge: surface(merge(init, δ)) = surface(init) + Σ δ_l basis_l
     delta = {k: T(v) for k, v in case["delta"].items()}
@@ -728,6 +733,8 @@ def run(ctx):
         ctx.extra["case_counts"] = {"formula": nf, "alias": na, "fit": nfit, "points_per_formula_case": 6}
         from . import c12_ext as cx
         cx.run(ctx, drv)          # histories / rejected calls / entry points (growth round 5)
+        from . import c12_g6 as g6
+        g6.run(ctx, drv)          # fixed blocks: max_order / top harmonics / branch cut / fit quadrants / grad grid / twins (growth round 6)
     finally:
         drv.close()
 
@@ -745,6 +752,9 @@ def replay(ctx, rep):
             EVAL[case["stream"]](ctx, drv, case)
         elif case.get("stream") in cx.EVAL:
             cx.EVAL[case["stream"]](ctx, drv, case)
+        elif case.get("stream") in ("order", "gradgrid", "twin"):
+            from . import c12_g6 as g6
+            g6.EVAL[case["stream"]](ctx, drv, case)
         else:
             check_tables(ctx, drv)
     finally:
